@@ -50,6 +50,13 @@ def state_of(backend, path):
         except icl.ICLError as e:
             problems.append("member %s does not parse: %s" % (name, e))
         members[name] = sha(body)
+        # the same member read by name only (what GET does before it knows an etag)
+        try:
+            body2 = b"".join(st.get_file(name, ct).content)
+            if body2 != body:
+                problems.append("member %s: listing and read-by-name disagree (the listing's etag gives %d bytes, the name gives %d other bytes)" % (name, len(body), len(body2)))
+        except Exception as e:
+            problems.append("member %s is listed but cannot be read by name: %r" % (name, e))
     meta = {}
     for k, fn in (("displayname", "get_displayname"), ("color", "get_color"), ("description", "get_description"), ("type", "get_type")):
         try:
